@@ -234,6 +234,7 @@ static void ob_multi_channel(H<T>& h)
     m.h = &h; m.log = &log; m.tab = &tab; m.coord_calls = &cc; m.dens_calls = &dc;
     m.jac_kinds = h.get("jk", 1);
     m.density_may_vanish = h.get("pz", 0) != 0;
+    m.coordinate_return_forks = h.get("cr", 0) != 0;
     sym::stub_engine eng;
     eng.position = 11;
     std::uint64_t const pos0 = eng.position;
